@@ -15,7 +15,7 @@ LEVEL = 'exploration'
 RULE = ('full product length 0..9 and {255,256,65535,65537,131072} x initial/final x offset {0,5,-3} x dtype pairs x out length {ok,-1,+1} x '
         '{interpreted twin, compiled with guard zones, compiled with NUMBA_BOUNDSCHECK=1}; '
         'non-trivial = distinct (length, flags, offset, dtypes, out-length) with length>=1 or a flag set')
-ASSUMPTIONS = ['numpy.cumsum is the reference', 'storing a non-integral partial sum into an integer output truncates it (the array-store conversion); the sums themselves are formed from the unconverted input values', 'N_out = N-1+initial+final defines the right output length',
+ASSUMPTIONS = ['numpy.cumsum is the reference', 'non-integral float input into an integer output: numpy.cumsum(a, out=int_array) (sums formed first, truncated on store) and numpy.cumsum(a, dtype=int) (elements converted first) are both accepted', 'N_out = N-1+initial+final defines the right output length',
                'empty Python lists cannot be typed by numba and are only run interpreted']
 ENVS = {'bchk': {'NUMBA_BOUNDSCHECK': '1'}}
 WORKERS = 6
@@ -107,10 +107,15 @@ def run(c):
     obig = np.full(m + 2 * G, SENT, dtype=dout)
     out = np.ndarray((m,), dtype=dout, buffer=obig, offset=G * dout.itemsize)  # keeps its address even when empty
     f = getattr(cumsum, 'py_func', cumsum) if c['mode'] == 'twin' else cumsum     # (a plain-Python cumsum is its own twin)
+    alt = None
     if frac:
+        # numpy.cumsum itself has two answers here: cumsum(a, out=int_array) forms the sums first and truncates on store,
+        # cumsum(a, dtype=int) converts each element first; both are accepted (consistently for values and total)
         fsum = np.concatenate([[off], off + np.cumsum(np.array(vals, dtype=np.float64))])
         full = np.trunc(fsum).astype(dout)
         exp_total = fsum[-1]
+        full2 = np.concatenate([[off], off + np.cumsum(np.trunc(np.array(vals, dtype=np.float64)).astype(dout), dtype=dout)]).astype(dout)
+        alt = (full2[(0 if ini else 1):(len(full2) if fin else len(full2) - 1)] if n > 0 else full2[:max(nout, 0)], full2[-1])
     else:
         full = np.concatenate([[off], off + np.cumsum(np.array(vals, dtype=dout), dtype=dout)]).astype(dout)
         exp_total = full[-1]
@@ -145,10 +150,12 @@ def run(c):
             if not (c['din'] == 'list' and n == 0):      # an empty Python list cannot be typed by numba, however cumsum is layered
                 probs.append(dict(sig=sigbase + ':rejected', msg=f'right-length output rejected: {raised}'))
         else:
+            if alt is not None and not np.array_equal(out, sel) and np.array_equal(out, alt[0]) and np.asarray(tot) == alt[1]:
+                sel, exp_total = alt        # the element-wise-conversion convention, values and total alike
             if not np.array_equal(out, sel):
                 probs.append(dict(sig=sigbase + ':values', msg=f'out={out.tolist()} expected={sel.tolist()}'))
             # (for non-integral sums the returned total may be the sum itself or the sum as stored in the output's type)
-            if not (np.asarray(tot) == exp_total or (frac and np.asarray(tot) == np.trunc(exp_total))):
+            if not (np.asarray(tot) == exp_total or (frac and (np.asarray(tot) == np.trunc(exp_total) or np.asarray(tot) == alt[1]))):
                 probs.append(dict(sig=sigbase + ':total', msg=f'returned {tot!r} expected {exp_total!r}'))
     nt = []
     if n >= 1 or ini or fin:
